@@ -2256,7 +2256,6 @@ func c01R20(c *Ctx, r *Report) {
 	}
 }
 
-
 // ---- C18.R14: a store into a narrowed union reaches the union -------------------------------------------------------
 
 func init() {
@@ -2427,5 +2426,61 @@ func c06R12(c *Ctx, r *Report) {
 	for _, want := range []string{"SelectorExpr", "IndexExpr", "ParenExpr", "CastExpr"} {
 		r.Check(through[want], rule, fn.Name(), "looks through "+want, c.pos(fn.Decl.Pos()),
 			"an expression of this form is not traced back to the variable it addresses, so the immutability of that variable is not seen: `const c := { .X = 1 } as P; (c as P).inc(); io::Println(c.X);` with a `&'P` receiver is accepted and prints 2 (the cast is lowered as the address of c)")
+	}
+}
+
+// ---- C13.R23: who may create files and directories -------------------------------------------------------------------
+
+func init() {
+	lateInits = append(lateInits, func() {
+		props["C13"].Quick = append(props["C13"].Quick, c13R23)
+		props["C13"].Explanation += " (R23) files and directories are created (os.Create/MkdirAll/Mkdir/WriteFile/OpenFile/CreateTemp/MkdirTemp) only by the code-generation phases, whose cleanup R13/R14 check, the TOML writer and the two debug dumps a flag asks for: setting up a compilation creates nothing that a failed run would leave behind."
+	})
+}
+
+// c13R23Allowed: the functions that may create files or directories.
+var c13R23Allowed = map[string]string{
+	"pipeline.(*Pipeline).runQBECodegenPhase":  "the gen/ directory; removed on every failing exit (C13.R13)",
+	"pipeline.(*Pipeline).generateModuleQBE":   "the .ssa files inside gen/",
+	"pipeline.(*Pipeline).runWasmCodegenPhase": "the .wasm output, written only after the error gate (C13.R14)",
+	"toml.WriteTOMLFile":                       "the library's writer: it is asked to create that file",
+	"frontend/ast.(*Module).SaveAST":           "debug dump requested with -save-ast",
+	"mir.WriteModuleFile":                      "debug dump of the MIR requested by a flag",
+}
+
+func c13R23(c *Ctx, r *Report) {
+	const rule = "C13.R23"
+	r.Describe(rule, "all non-test packages: every call of os.Create, os.MkdirAll, os.Mkdir, os.WriteFile, os.OpenFile, os.CreateTemp or os.MkdirTemp stands in a function of the reviewed table (code-generation phases, TOML writer, debug dumps)")
+	creates := map[string]bool{"Create": true, "MkdirAll": true, "Mkdir": true, "WriteFile": true, "OpenFile": true, "CreateTemp": true, "MkdirTemp": true}
+	n := 0
+	seen := map[string]bool{}
+	for _, p := range c.Pkgs {
+		rel := relOf(p.PkgPath)
+		if strings.HasPrefix(rel, "tools") {
+			continue
+		}
+		for _, fn := range c.AllFns(rel) {
+			if fn.Decl.Body == nil {
+				continue
+			}
+			for _, cl := range callsIn(fn.Decl.Body, true) {
+				f := callee(fn.Info(), cl)
+				if f == nil || f.Pkg() == nil || f.Pkg().Path() != "os" || !creates[f.Name()] {
+					continue
+				}
+				n++
+				reason, ok := c13R23Allowed[fn.Name()]
+				seen[fn.Name()] = true
+				r.Check(ok, rule, fn.Name(), "os."+f.Name()+" "+exprStr(cl.Args[0]), c.pos(cl.Pos()),
+					"a file or directory is created outside the code-generation phases: nothing removes it when the compilation fails — `context_v2.New` made an empty `.ferret` directory in the project root on every run, which stayed behind after `io::Println(1 }` was rejected")
+				_ = reason
+			}
+		}
+	}
+	r.Floor(rule, n, 4, "file/directory creations")
+	for _, k := range sortedKeys(c13R23Allowed) {
+		if !seen[k] {
+			r.Note("C13.R23: reviewed creator %s no longer creates anything (entry can go)", k)
+		}
 	}
 }
